@@ -80,7 +80,8 @@ def rand_json(r, depth=0):
         if c < 0.4:
             return r.choice([0, 1, -1, 2**31, -2**63, 2**64, 10**r.choice([20, 100, 1000, 4000]) + r.randint(0, 9), r.randint(-10**6, 10**6)])
         if c < 0.6:
-            return r.choice([0.0, -0.0, 1.5, -2.25, 1e308, 5e-324, 1e-7, 123456789.123456789, r.uniform(-1e6, 1e6), r.random()])
+            # (json.dump writes non-finite floats as Infinity / -Infinity by default and json.load reads them back: they are JSON-serializable values of this store)
+            return r.choice([0.0, -0.0, 1.5, -2.25, 1e308, 5e-324, 1e-7, 123456789.123456789, r.uniform(-1e6, 1e6), r.random(), float("inf"), float("-inf"), 1e308 * 10])
         if c < 0.7:
             return r.choice([True, False])
         if c < 0.8:
